@@ -87,7 +87,7 @@ def is_pure_call(w, name, f):
     sn = strip_generics(name)
     if sn.startswith(('std::cell::RefCell::borrow', 'std::cell::Ref', 'std::pin::Pin::', 'std::vec::Vec::len', 'std::cell::Cell::get')):
         return True
-    if sn.endswith('Deref>::deref') or sn.endswith('::is_empty') or sn.endswith('::len') or sn.endswith('::as_ptr'):
+    if sn.endswith('Deref>::deref') or sn.endswith('::is_empty') or sn.endswith('::len') or sn.endswith('::as_ptr') or sn.endswith('::as_ptr_range') or sn.endswith(('ops::Index::index', '::last', '::first')) or (' as std::ops::Index<' in name and name.endswith('>::index')):
         return True
     if sn.startswith('std::ptr::') and sn.endswith(('offset_from', 'offset', 'cast')):
         return True
@@ -164,7 +164,8 @@ def classify(w, f, bi, k, tab):
         return 'pacing', 'both arms only choose when to collect (equivalent iff C01)'
     # (b) check-only: the true-only region is pure and every exit of it either diverges or rejoins the false arm
     div_true = all_exits_diverge_or_join(f, only_true, false_t)
-    impure = [n for n in calls_true if not is_pure_call(w, n, f) and not is_panic(n)]
+    impure = [callee_name(f.blocks[b]['t']) for b in sorted(only_true) if f.blocks[b]['t']['t'] == 'call' and not is_pure_call(w, callee_name(f.blocks[b]['t']), f)
+              and not is_panic(callee_name(f.blocks[b]['t'])) and not is_pure_site(w, f, b)]      # (a read-only predicate of the crate, e.g. Stack::is_full, is a test too)
     if not impure and not has_pointer_store(f, only_true):
         if div_true == 'diverge-or-join':
             # false-only region must be empty or the unchecked counterpart (unreachable_unchecked)
